@@ -206,6 +206,11 @@ fn corpus_programs(tier: &str, with_comments: bool) -> (Vec<(String, String)>, V
     for p in sqs {
         progs.push(("SQLIVE".into(), p));
     }
+    let covers = corpus::cover_programs();
+    let cover_count = covers.len();
+    for p in covers {
+        progs.push(("COVER".into(), p));
+    }
     let deeps = corpus::gen_deep();
     let deep_count = deeps.len();
     for p in deeps {
@@ -268,6 +273,7 @@ fn corpus_programs(tier: &str, with_comments: bool) -> (Vec<(String, String)>, V
         "LIVE": format!("{} programs keeping 3..14 values alive across I/O and far moves (seed {})", live_count, sd),
         "NEST": format!("{} loops whose body holds a pointer-moving inner loop followed by loops / I/O at the shifted offsets (seed {})", nest_count, sd),
         "SQLIVE": format!("{} products (x*x or x*b) computed between two uses of other live values (seed {})", sq_count, sd),
+        "COVER": format!("{} programs of the generated families that reach compile-path regions the first ~90 programs of each family do not (coverage-instrumented build, development aid)", cover_count),
         "DEEP": format!("{} programs: bracket nesting 64..300 levels (around the 8-bit boundary), in skipped and in entered loops (deterministic)", deep_count),
         "GEO": format!("{} programs: counted loops updating a cell as y = k*y + d (geometric closed form), constant and input-dependent counts and start values; a two-cell linear recurrence (deterministic)", geo_count),
         "DSE": format!("{} programs: store, barrier (moving scans, moves, loops), second store at the same relative offset, dump of the neighbourhood; constant and input-dependent stores (deterministic)", dse_count),
